@@ -61,6 +61,13 @@ pub fn judge(ctx: &mut Ctx, v: &Version, source: &str, loose: bool) {
     };
     let cls = shape_class(v, &printed);
     ctx.class(&format!("{}{}", cls, if loose { " loose-source" } else { "" }));
+    // the printed form is the same text under any format specification (padding outside only)
+    if printed.len() < 80 {
+        if let Ok(Some(m)) = guarded(|| crate::observe::fmt_spec_mismatch(v)) {
+            ctx.violation(&format!("display-under-format-spec/{}", cls), w, m);
+            return;
+        }
+    }
     if !v.pre_release.is_empty() || !v.build.is_empty() || loose {
         ctx.nontrivial(source);
     }
